@@ -103,8 +103,8 @@ def _call_object(F, c):
     o = _strip(F["nodes"], m["c"][0])
     if F["nodes"][o]["k"] == "CXXThisExpr":
         return "this"
-    if not m.get("arrow") and pure_path(F["nodes"], o):
-        return o
+    if pure_path(F["nodes"], o):
+        return ("ptr", o) if m.get("arrow") else o
     return None
 
 
@@ -220,7 +220,15 @@ def splice(F, c, H):
             if cont[key] >= 0:
                 hparent[cont[key]] = n["i"]
     # ---- `this` of the helper is the object of the call
-    if obj != "this":
+    if isinstance(obj, tuple):
+        # `p->helper()`: the helper's `this` is the pointer p itself
+        for n in hn:
+            if n["k"] == "CXXThisExpr":
+                cl = clone_subtree(nodes, obj[1])
+                i0 = n["i"]
+                n.clear()
+                n.update({"i": i0, "k": "ParenExpr", "c": [cl], "inl": H["sig"]})
+    elif obj != "this":
         for n in hn:
             if n["k"] != "CXXThisExpr":
                 continue
@@ -240,11 +248,22 @@ def splice(F, c, H):
     call = nodes[c]
     args = call["c"][1:]
     pre_els = []
+    dropped = set()
     for j, prm in enumerate(hparams):
         if j >= len(args):
             break
         a = args[j]
         if prm["t"].rstrip().endswith("&") and pure_path(nodes, a):
+            # binding a reference evaluates no load: the argument's own sub-expressions leave the caller's block
+            stack_, sub_ = [a], set()
+            while stack_:
+                z_ = stack_.pop()
+                if z_ in sub_ or z_ < 0:
+                    continue
+                sub_.add(z_)
+                for (cont_, key_) in _node_id_fields(nodes[z_]):
+                    stack_.append(cont_[key_])
+            dropped.update(sub_)
             for n in hn:
                 if n["k"] == "DeclRefExpr" and n.get("ref", {}).get("id") == prm["id"]:
                     cl = clone_subtree(nodes, a)
@@ -286,7 +305,7 @@ def splice(F, c, H):
         if rets:
             ret_blocks.append((b, rets[-1]))
     post_els = B["el"][k + 1:]
-    B_el_pre = B["el"][:k] + pre_els
+    B_el_pre = [e_ for e_ in B["el"][:k] if _el_id(e_) not in dropped] + pre_els
 
     def drop_term(b, r):
         if b.get("term") == r:
